@@ -1,18 +1,20 @@
-SPECIFICATION FairSpec
+SPECIFICATION MCSpec
 CONSTANTS
  Calls = {1, 2}
  MCCalls = {1, 2}
  Poll = 2
  Ticks = TRUE
  Defect = "none"
- MaxTime = 2
+ MaxTime = 4
  MaxAtt = 2
- ShutTOs <- TONever
+ ShutTOs <- TOBoth
  PCancel = {}
  Gates = {FALSE}
  DL1 <- DL2
  DL2s <- DLN
  W3 <- WT
- Res <- R2
-PROPERTIES AllCallsEnd
+ Res <- R3
+INVARIANTS Safety
+PROPERTIES Independent
+VIEW View
 CHECK_DEADLOCK FALSE
